@@ -155,8 +155,6 @@ def float_remainder(prop, rec):
     got = _answer(res, rec["kind"], fixed_limit=True)
     if got is None or got != want or not _rerun_moments_ok(rec, res):
         return None
-    if rec["kind"] == "ei" and rec.get("k") == 0:
-        return None
     return True
 
 
